@@ -98,7 +98,8 @@ def slotIndexOf (p : SlotPaths) (field : String) : Except String Nat :=
 
 /-- Parser.GetFieldSlotIndex given the serialization attribute found for the type ("" = none / unknown type) -/
 def getFieldSlotIndex (attr : String) (field : String) : Except String Nat :=
-  if attr = "" then .error "no-serialization"
+  if field = "" then .error "empty-field"
+  else if attr = "" then .error "no-serialization"
   else match parseSer attr with
     | .error e => .error e
     | .ok p => slotIndexOf p field
